@@ -720,8 +720,10 @@ fn huge_case(cx: &mut Ctx, j: u64) -> R {
         let g = cx.must("get", || b.get(i))?;
         cx.check_eq(g, value, "get", || format!("get({i})"))?;
     }
+    // two distinct positions at and above 2^32 (len - 1 is 2^32 itself when len = 2^32 + 1)
+    let second = if len - 1 == 1 << 32 { (1usize << 32) - 1 } else { 1 << 32 };
     cx.must("set", || b.set(len - 1, !value))?;
-    cx.must("set", || b.set(1 << 32, !value))?;
+    cx.must("set", || b.set(second, !value))?;
     let ones2 = if value { len - 2 } else { 2 };
     check_counts(cx, &b, ones2, "after two sets above 2^32")?;
     cx.must_panic("get(len)", || b.get(len))?;
@@ -735,8 +737,8 @@ fn huge_case(cx: &mut Ctx, j: u64) -> R {
     cx.must("atomic.flip", || a.flip(Ordering::Relaxed))?;
     let c = cx.must("atomic.count_ones", || a.count_ones())?;
     cx.check_eq(c, len - ones2, "atomic.count_ones", || format!("AtomicBitVec::count_ones after flip (len {len})"))?;
-    let g = cx.must("atomic.get", || a.get(1 << 32, Ordering::Relaxed))?;
-    cx.check_eq(g, value, "atomic.get", || "AtomicBitVec::get(2^32) after flip".into())?;
+    let g = cx.must("atomic.get", || a.get(second, Ordering::Relaxed))?;
+    cx.check_eq(g, value, "atomic.get", || format!("AtomicBitVec::get({second}) after flip"))?;
     cx.must("atomic.fill", || a.fill(true, Ordering::Relaxed))?;
     let c = cx.must("atomic.count_ones", || a.count_ones())?;
     cx.check_eq(c, len, "atomic.count_ones", || format!("AtomicBitVec::count_ones after fill(true) (len {len})"))?;
